@@ -451,6 +451,29 @@ theorem connect_accepted (st : HubSt) (label : Nat) (r : SubReq) (c : Option Cla
       · simp only [hl, Bool.false_eq_true, if_false]
         cases st2.kind <;> rfl
 
+/-! ### decomposition of `connectFailing` -/
+
+theorem connectFailing_refused (st : HubSt) (label : Nat) (r : SubReq) (s : Nat) (b : Str)
+    (h : subscribeDecision st.cfg tokS r = .refused s b) :
+    st.connectFailing M tokS label r =
+      ({ st with uuid := st.uuid + 1 }, { status := s, body := b, respLEID := none }) := by
+  unfold HubSt.connectFailing
+  simp only [h]
+
+/-- An authorised failing registration: the two rounds of subscription events, then the ghost entry,
+    then every handler runs to quiescence. -/
+theorem connectFailing_accepted (st : HubSt) (label : Nat) (r : SubReq) (c : Option Claims) (priv : List Str)
+    (leid : Str) (h : subscribeDecision st.cfg tokS r = .accepted c priv leid) :
+    ∃ (c0 : Conn) (st2 st3 : HubSt), IsConn0 c0 label priv ∧ c0.sels = r.topics ∧
+      st2 = HubSt.subscriptionEvents M (HubSt.subscriptionEvents M { st with uuid := st.uuid + 1 } c0 true) c0 false ∧
+      st3 = { st2 with failed := st2.failed ++ [(label, r.topics, !st.closed)] } ∧
+      st.connectFailing M tokS label r =
+        (st3.settle M (st3.conns.length + 2),
+         { status := 503, body := "Service Unavailable\n".toList, respLEID := none }) := by
+  unfold HubSt.connectFailing
+  simp only [h]
+  exact ⟨_, _, _, ⟨rfl, rfl, rfl, rfl, rfl, rfl, rfl⟩, rfl, rfl, rfl, rfl⟩
+
 /-! ### labels are never changed -/
 
 def labels (st : HubSt) : List Nat := st.conns.map (·.label)
@@ -522,6 +545,7 @@ structure Pres (M : Str → Str → Bool) (P : HubSt → Prop) : Prop extends Pr
   reopen : ∀ (st : HubSt) (leid : Str) (db' : List (Nat × Update)), st.closed = true →
     (st.kind = .bolt → db' = st.db) → P st →
     P { st with closed := false, index := [], epoch := st.epoch + 1, db := db', lastEventID := leid }
+  failed : ∀ (st : HubSt) (fl : List (Nat × List Str × Bool)), P st → P { st with failed := fl }
 
 variable {P : HubSt → Prop}
 
@@ -653,6 +677,19 @@ theorem Pres.connect (hP : Pres M P) (st : HubSt) (label : Nat) (r : SubReq)
       · rw [hst2, subEvents_labels]; rfl
       · rw [hst2, subEvents_closed]; exact hc
 
+theorem Pres.connectFailing (hP : Pres M P) (st : HubSt) (label : Nat) (r : SubReq)
+    (h : P st) : P (st.connectFailing M tokS label r).1 := by
+  cases hd : subscribeDecision st.cfg tokS r with
+  | refused s b => rw [connectFailing_refused tokS st label r s b hd]; exact hP.uuid st h
+  | accepted c priv leid =>
+    obtain ⟨c0, st2, st3, _, _, h2, h3, he⟩ := connectFailing_accepted (M := M) tokS st label r c priv leid hd
+    rw [he]
+    apply hP.settle
+    rw [h3]
+    apply hP.failed
+    rw [h2]
+    exact hP.subEvents _ c0 false (hP.subEvents _ c0 true (hP.uuid st h))
+
 theorem close_closed' (st : HubSt) : (st.close M).closed = true := by
   unfold HubSt.close
   split
@@ -670,6 +707,7 @@ theorem Pres.step (hP : Pres M P) (st : HubSt) (op : HubOp)
   cases op with
   | publish r => exact hP.publish tokP st r h
   | connect l r => exact hP.connect st l r (hconn l r rfl) h
+  | connectFail l r => exact hP.connectFailing st l r h
   | clientClose l => exact hP.clientClose st l h
   | stall l b => exact hP.setStalled st l b h
   | failNext l => exact hP.failNextWrite st l h
@@ -742,6 +780,7 @@ theorem pres_ok : Pres M (fun st => ∀ c ∈ st.conns, c.Ok M tokS) where
     · exact ⟨hc.enq, hc.wr, hc.tok⟩
     · exact hc
   reopen st leid db' _ _ h := h
+  failed st fl h := h
 
 theorem run_ok (ops : List HubOp) (st : HubSt) (h : ∀ c ∈ st.conns, c.Ok M tokS) :
     ∀ c ∈ (st.run M tokP tokS ops).conns, c.Ok M tokS := by
@@ -792,6 +831,7 @@ theorem pres_metrics : Pres M MetricsInv where
     obtain ⟨h1, h2, h3⟩ := h
     exact ⟨h1, by simpa only [List.length_map] using h2, h3⟩
   reopen st leid db' _ _ h := h
+  failed st fl h := h
 
 theorem run_metrics (ops : List HubOp) (st : HubSt) (h : MetricsInv st) :
     MetricsInv (st.run M tokP tokS ops) := by
@@ -833,6 +873,7 @@ theorem pres_db : Pres M DbInv where
     refine ⟨?_, hk, hs⟩
     simp only [hdb hk]
     exact h1
+  failed st fl h := h
 
 theorem run_db (ops : List HubOp) (st : HubSt) (h : DbInv st) : DbInv (st.run M tokP tokS ops) := by
   refine pres_db.run tokP ?_ ops st h
@@ -927,6 +968,7 @@ theorem pres_labels (Q : List Nat → Prop) : Pres M (fun st => Q (labels st)) w
   closeMark st _ h :=
     Q_of_labels_eq (map_label_congr _ _ (fun c => by split <;> rfl)) h
   reopen st leid db' _ _ h := h
+  failed st fl h := h
 
 theorem addConn_labels (st : HubSt) (l : Nat) (resp : Option Str) (conn : Conn) (h : conn.label = l) :
     labels (st.addConn l resp conn) = labels st ++ [l] := by
@@ -989,6 +1031,7 @@ theorem pres_count : Pres M CountInv where
     · exact h.2
     · intro c; split <;> rfl
   reopen st leid db' _ _ h := h
+  failed st fl h := h
 
 theorem run_count (ops : List HubOp) (st : HubSt) (h : CountInv st) (hf : FreshLabels ops)
     (hdisj : ∀ l ∈ ops.filterMap HubOp.connectLabel, l ∉ labels st) :
